@@ -254,7 +254,10 @@ func GenPayload(r *simrt.Rand, x *shapes.Rec) {
 	if r.Bool() {
 		x.MS = map[string]shapes.Line{"k1": mkLine("m"), "k2": mkLine("n")}
 	}
-	switch r.Intn(5) {
+	switch r.Intn(6) {
+	case 5:
+		// becomes a shapes.AnyBox value (a structure held by the interface) when passed to the database
+		x.Any = map[string]interface{}{"$box": "b", "N": float64(r.Intn(3)), "S": "q", "L": []interface{}{float64(1), float64(2)}}
 	case 1:
 		x.Any = "str"
 	case 2:
